@@ -33,7 +33,7 @@ var Prop = &engine.Prop{
 		"the FIFO semaphore model (40 lines) is the specification of admission order",
 		"the Go race detector reports races only on executed interleavings",
 	},
-	ShardsQuick: 8, ShardsThorough: 32,
+	ShardsQuick: 8, ShardsThorough: 16,
 	Setup: func(c *engine.Ctx) { Q = engine.NewQuiescer() },
 	Kinds: []engine.Kind{
 		{Name: "sched", Quick: 12000, Thorough: 800000, Fn: schedCase},
